@@ -37,6 +37,8 @@ def canon(v, _depth=0):
         return ["I", int(v)]
     if isinstance(v, (float, _np.floating)):
         return ["R", float(v)]
+    if isinstance(v, (complex, _np.complexfloating)):
+        return ["X", "complex", complex(v).real, complex(v).imag]
     if isinstance(v, dict):
         items = [[canon(k, _depth + 1), canon(x, _depth + 1)] for k, x in v.items()]
         items.sort(key=_dkey)
@@ -47,6 +49,8 @@ def canon(v, _depth=0):
             x = t.item()
             if isinstance(x, bool):
                 return ["B", x]
+            if isinstance(x, complex):
+                return ["X", "complex", x.real, x.imag]
             return ["I", x] if isinstance(x, int) else ["R", float(x)]
         return canon(t.numpy(), _depth)
     if isinstance(v, _np.ndarray):
@@ -161,6 +165,8 @@ def _same(a, b, rel, ab, strict):
         return None
     if ka == "F":
         return None if (a[1] == b[1] or a[1] is None or b[1] is None) else "value"
+    if ka == "X" and a[1] == "complex" and b[1] == "complex":
+        return None if (_num_close(a[2], b[2], rel, max(ab, 1e-9)) and _num_close(a[3], b[3], rel, max(ab, 1e-9))) else "value"
     return None if a[1:] == b[1:] else "value"
 
 
